@@ -10,6 +10,7 @@ import (
 	"reflect"
 	"regexp"
 	"strings"
+	"unicode/utf8"
 
 	"github.com/fatedier/frp/pkg/config"
 	v1 "github.com/fatedier/frp/pkg/config/v1"
@@ -21,7 +22,7 @@ var idxRe = regexp.MustCompile(`\[[^\]]*\]`)
 
 func pathKey(d string) string {
 	p := d
-	if i := strings.Index(p, ":"); i > 0 {
+	if i := strings.Index(p, ":"); i >= 0 {
 		p = p[:i]
 	}
 	p = idxRe.ReplaceAllString(p, "")
@@ -41,7 +42,11 @@ func coarse(sig string) string { return parenRe.ReplaceAllString(sig, "") }
 
 func short(s string) string {
 	if len(s) > 1500 {
-		return s[:1500] + "…"
+		n := 1500
+		for n > 0 && !utf8.RuneStart(s[n]) {
+			n--
+		}
+		return s[:n] + "…"
 	}
 	return s
 }
